@@ -356,6 +356,9 @@ func (o *Obligation) solve(tier string, idx int) {
 		o.Scripts = nil
 		var total int64
 		for k, sc := range scripts {
+			if o.Cover && k >= 3 {
+				break // reachability probes: a few cases are enough
+			}
 			o.Script = sc
 			o.ScriptG = ""
 			if k < len(o.ScriptsG) {
